@@ -134,7 +134,9 @@ Record vops (V : Type) := {
   vneg : V -> V;
   vmul : V -> V -> V;          (* the [operator] *)
   vadj : V -> V;               (* Dagger *)
-  vdiv : V -> Z -> V           (* division by an integer literal *)
+  vdiv : V -> Z -> V;          (* division by an integer literal *)
+  vis0 : V -> bool             (* a (sound) test for the mathematical zero; used ONLY by the
+                                  specification of products, never by the evaluator *)
 }.
 
 Section SOps.
